@@ -7,8 +7,8 @@ CFGS = {
     'default': [],
     'swizzle': ['-DGLM_FORCE_SWIZZLE'],
     'xyzw_only': ['-DGLM_FORCE_XYZW_ONLY', '-DC16_XYZW_ONLY'],
-    'wxyz': ['-DGLM_FORCE_QUAT_DATA_WXYZ', '-DC16_EXPECT_WXYZ'],
-    'size_t_length': ['-DGLM_FORCE_SIZE_T_LENGTH', '-DC16_EXPECT_SIZE_T_LENGTH'],
+    'wxyz': ['-DGLM_FORCE_QUAT_DATA_WXYZ=', '-DC16_EXPECT_WXYZ'],  # defined empty (documented form)
+    'size_t_length': ['-DGLM_FORCE_SIZE_T_LENGTH=', '-DC16_EXPECT_SIZE_T_LENGTH'],
     'ctor_init': ['-DGLM_FORCE_CTOR_INIT'],
     'aligned_gentypes': ['-DGLM_FORCE_ALIGNED_GENTYPES', '-DGLM_FORCE_INTRINSICS', '-mavx2', '-DC16_EXPECT_ALIGNED'],
     'default_aligned': ['-DGLM_FORCE_DEFAULT_ALIGNED_GENTYPES', '-DGLM_FORCE_INTRINSICS', '-mavx2', '-DC16_EXPECT_ALIGNED', '-DC16_EXPECT_DEFAULT_ALIGNED'],
